@@ -32,6 +32,17 @@ from dataclasses import dataclass, field
 from typing import Optional, Dict, List, Any
 
 
+_LOG_LEVELS = ("INFO", "WARN", "ERROR")
+
+def _decode_log_level(value: Any) -> Optional[str]:
+  """Decodes the logging verbosity"""
+  if value is None:
+    return None
+  if value not in _LOG_LEVELS:
+    raise ValueError(f"Invalid log_level '{value}'. Expect: 'INFO', 'WARN' or 'ERROR'.")
+  return value
+
+
 def decode_bool(value: Any) -> bool:
   """Decodes a boolean configuration value: only the JSON values `true` and `false` are accepted"""
   if not isinstance(value, bool):
@@ -93,7 +104,7 @@ class ModuleConfiguration:
 @dataclass
 class GeneralConfiguration(ModuleConfiguration):
   """TT general configuration"""
-  log_level: Optional[str] = "INFO"
+  log_level: Optional[str] = field(default="INFO", metadata={"decoder": _decode_log_level})
   progress_bar: Optional[bool] = field(default=True, metadata={"decoder": decode_bool})
   document_lang: Optional[str] = None
 
